@@ -227,7 +227,7 @@ func (e *Engine) get(s *State, v ssa.Value) Value {
 	case *ssa.Const:
 		return e.constValue(x)
 	case *ssa.Global:
-		return Value{e.newPlace(Place{Prefix: "global(" + e.typeKey(x.Type())[1:] + ":" + x.Pkg.Pkg.Name() + "." + x.Name() + ")", Addr: nil})}
+		return Value{e.globalPlace(x.Type(), x.Pkg.Pkg.Name(), x.Name())}
 	case *ssa.Function:
 		return Value{e.funcTerm(x, nil)}
 	case *ssa.Builtin:
@@ -242,6 +242,17 @@ func (e *Engine) get(s *State, v ssa.Value) Value {
 	}
 	e.fail("unbound register %s in %s", v.Name(), f.fn)
 	return nil
+}
+
+// globalPlace: the (canonical) address term of a package-level variable.
+func (e *Engine) globalPlace(ptrType types.Type, pkgName, name string) *Term {
+	prefix := "global(" + e.typeKey(ptrType)[1:] + ":" + pkgName + "." + name + ")"
+	if t, ok := e.globalPlaces[prefix]; ok {
+		return t
+	}
+	t := e.newPlace(Place{Prefix: prefix, Addr: nil})
+	e.globalPlaces[prefix] = t
+	return t
 }
 
 func (e *Engine) funcTerm(fn *ssa.Function, b []Value) *Term {
@@ -376,6 +387,20 @@ func (e *Engine) stepBlock(s *State) ([]*State, *pathResult) {
 	}
 }
 
+func (e *Engine) markUnrolled(f *Frame, b *ssa.BasicBlock) bool {
+	if f.unrolled == nil {
+		f.unrolled = map[*ssa.BasicBlock]bool{}
+	} else {
+		n := make(map[*ssa.BasicBlock]bool, len(f.unrolled)+1)
+		for k, v := range f.unrolled {
+			n[k] = v
+		}
+		f.unrolled = n
+	}
+	f.unrolled[b] = true
+	return true
+}
+
 // refineRegs: after branching on c, register slots of the form ite(c, a, b) (or ite over a
 // conjunct of c) collapse to the branch taken.
 func refineRegs(f *Frame, c *Term, truth bool) {
@@ -453,7 +478,7 @@ func (e *Engine) enterBlock(s *State, b *ssa.BasicBlock) bool {
 	f := s.top()
 	from := f.block
 	la := e.loops(f.fn)
-	if lp, isHeader := la.headers[b]; isHeader {
+	if lp, isHeader := la.headers[b]; isHeader && !(f.unrolled[b] || (f.loops[b] == nil && e.unrollable(s, f, lp) && e.markUnrolled(f, b))) {
 		if _, seen := f.loops[b]; seen && la.isBackEdge(from, b) {
 			// back edge: check the invariant, end of path
 			e.checkLoopInvariant(s, f, lp, from, false)
